@@ -16,7 +16,14 @@
 //!    where it is disabled;
 //!  * v1: key sets that are no chord are decomposed greedily into the largest defined sub-chords in
 //!    press order;
-//!  * parser: participating key sets are unique regardless of the order they are written in.
+//!  * parser: participating key sets are unique regardless of the order they are written in;
+//!  * delayed start (`c09_delayed.rs`): the group keys are typed while an undecided tap-hold on another
+//!    key keeps every event in the layout queue, 0 .. 4 x the chord timeout apart. "Pressed within its
+//!    timeout" is about when the keys were *pressed*: the time a press waited in the queue neither
+//!    widens nor narrows the window. Judged by accounting, by "a chord never fires for presses whose
+//!    arrival span exceeds its window + the processing lag", and (v1) by the same reference grouping
+//!    over arrival times as from idle (measured: a queued press joins iff it arrived <= T after the
+//!    group's first press; the tick T itself is not judged).
 
 use crate::core::rng::Rng;
 use crate::core::sim::{code_name, osc, render_hist, Ev, OutKind, Sim};
@@ -32,6 +39,25 @@ const KEYS: [&str; 5] = ["a", "b", "c", "d", "e"];
 const XKEY: &str = "x";
 const WIT: [&str; 6] = ["1", "2", "3", "4", "5", "6"];
 const R_DELAY: u32 = 5;
+/// the "blocker": a key that is in no chord and carries a plain tap-hold; while it is undecided every
+/// later event waits in the layout queue (delayed-start family, `c09_delayed.rs`)
+const BLOCKER: &str = "z";
+const BLOCKER_HOLD: &str = "y";
+/// index of the blocker key in `InEv::key` / the accounting (`KEYS` are 0..=4, `XKEY` is 5)
+const BLOCKER_KEY: usize = 6;
+/// size of the layout's event queue (keyberon `QUEUE_SIZE`)
+const LAYOUT_QUEUE_SLOTS: usize = 32;
+
+#[path = "c09_delayed.rs"]
+mod delayed;
+
+fn key_name(k: usize) -> &'static str {
+    match k {
+        0..=4 => KEYS[k],
+        5 => XKEY,
+        _ => BLOCKER,
+    }
+}
 
 struct Table {
     name: &'static str,
@@ -88,6 +114,8 @@ struct Conf {
     /// every chord action additionally taps a virtual key whose macro types a counter key of its
     /// own, so that the number of times the action was performed is visible in the OS stream
     counting: bool,
+    /// the layer additionally has the blocker key `z` = (tap-hold TH TH z y), TH = `delayed::blocker_hold`
+    blocker: bool,
 }
 
 const COUNTERS: [&str; 4] = ["p", "q", "r", "s"];
@@ -97,18 +125,29 @@ fn configs() -> Vec<Conf> {
     for table in 0..TABLES.len() {
         if TABLES[table].mixed() {
             for release in 0..2 {
-                v.push(Conf { v2: true, table, release, on_l2: false, counting: false });
+                v.push(Conf { v2: true, table, release, on_l2: false, counting: false, blocker: false });
             }
             continue;
         }
-        v.push(Conf { v2: false, table, release: 0, on_l2: false, counting: false });
+        v.push(Conf { v2: false, table, release: 0, on_l2: false, counting: false, blocker: false });
         for release in 0..2 {
             for on_l2 in [false, true] {
-                v.push(Conf { v2: true, table, release, on_l2, counting: false });
+                v.push(Conf { v2: true, table, release, on_l2, counting: false, blocker: false });
             }
         }
-        v.push(Conf { v2: false, table, release: 0, on_l2: false, counting: true });
-        v.push(Conf { v2: true, table, release: 0, on_l2: false, counting: true });
+        v.push(Conf { v2: false, table, release: 0, on_l2: false, counting: true, blocker: false });
+        v.push(Conf { v2: true, table, release: 0, on_l2: false, counting: true, blocker: false });
+    }
+    // delayed-start family: the same tables with a blocker key on the layer (appended, so that the
+    // indexes of the configurations above do not move)
+    for table in 0..TABLES.len() {
+        if TABLES[table].mixed() {
+            continue;
+        }
+        v.push(Conf { v2: false, table, release: 0, on_l2: false, counting: false, blocker: true });
+        for release in 0..2 {
+            v.push(Conf { v2: true, table, release, on_l2: false, counting: false, blocker: true });
+        }
     }
     v
 }
@@ -123,9 +162,9 @@ impl Conf {
     }
     fn label(&self) -> String {
         if self.v2 {
-            format!("v2|{}|{}|{}{}", self.tb().name, if self.release == 0 { "all-released" } else { "first-release" }, if self.on_l2 { "l2" } else { "base" }, if self.counting { "|counting" } else { "" })
+            format!("v2|{}|{}|{}{}", self.tb().name, if self.release == 0 { "all-released" } else { "first-release" }, if self.on_l2 { "l2" } else { "base" }, if self.counting { "|counting" } else if self.blocker { "|blocker" } else { "" })
         } else {
-            format!("v1|{}{}", self.tb().name, if self.counting { "|counting" } else { "" })
+            format!("v1|{}{}", self.tb().name, if self.counting { "|counting" } else if self.blocker { "|blocker" } else { "" })
         }
     }
     fn disabled(&self, chord_idx: usize) -> bool {
@@ -153,9 +192,15 @@ impl Conf {
         } else {
             String::new()
         };
+        let (bsrc, bact) = if self.blocker {
+            let th = delayed::blocker_hold(tb);
+            (format!(" {BLOCKER}"), format!(" (tap-hold {th} {th} {BLOCKER} {BLOCKER_HOLD})"))
+        } else {
+            (String::new(), String::new())
+        };
         if self.v2 {
             let mut s = format!(
-                "(defcfg process-unmapped-keys yes concurrent-tap-hold yes)\n(defsrc {k} {XKEY} n m)\n(deflayer base {k} {XKEY} (layer-switch l2) (layer-switch base))\n(deflayer l2 {k} {XKEY} (layer-switch l2) (layer-switch base))\n(defchordsv2\n",
+                "(defcfg process-unmapped-keys yes concurrent-tap-hold yes)\n(defsrc {k} {XKEY} n m{bsrc})\n(deflayer base {k} {XKEY} (layer-switch l2) (layer-switch base){bact})\n(deflayer l2 {k} {XKEY} (layer-switch l2) (layer-switch base){bact})\n(defchordsv2\n",
                 k = KEYS.join(" ")
             );
             for (ci, m) in tb.chords.iter().enumerate() {
@@ -173,7 +218,7 @@ impl Conf {
             s
         } else {
             let acts: Vec<String> = (0..5).map(|k| if k < tb.nkeys { format!("(chord g {})", KEYS[k]) } else { KEYS[k].to_string() }).collect();
-            let mut s = format!("(defcfg process-unmapped-keys yes)\n(defsrc {} {XKEY})\n(deflayer base {} {XKEY})\n(defchords g {}\n", KEYS.join(" "), acts.join(" "), tb.t);
+            let mut s = format!("(defcfg process-unmapped-keys yes)\n(defsrc {} {XKEY}{bsrc})\n(deflayer base {} {XKEY}{bact})\n(defchords g {}\n", KEYS.join(" "), acts.join(" "), tb.t);
             for k in 0..tb.nkeys {
                 s.push_str(&format!("  ({}) {}\n", KEYS[k], KEYS[k]));
             }
@@ -309,6 +354,8 @@ enum CaseKind {
     ParserDup,
     /// one hub key that takes part in many two-key chords (more than any fixed-size candidate buffer)
     Wide(usize),
+    /// delayed-start family (`c09_delayed.rs`): (blocker config, first scenario, last scenario (exclusive))
+    Delayed(usize, u64, u64),
 }
 
 fn n_random(ctx: &Ctx) -> u64 {
@@ -318,6 +365,9 @@ fn n_random(ctx: &Ctx) -> u64 {
 fn layout(ctx: &Ctx) -> Vec<CaseKind> {
     let mut v = vec![];
     for (ci, c) in configs().iter().enumerate() {
+        if c.blocker {
+            continue;
+        }
         let tot: u64 = work(ctx, c).iter().map(|w| w.1).sum();
         let mut s = 0;
         while s < tot {
@@ -329,6 +379,17 @@ fn layout(ctx: &Ctx) -> Vec<CaseKind> {
     for w in 0..WIDE_VARIANTS {
         v.push(CaseKind::Wide(w));
     }
+    for (ci, c) in configs().iter().enumerate() {
+        if !c.blocker {
+            continue;
+        }
+        let tot: u64 = delayed::work(ctx, c).iter().map(|w| w.1).sum();
+        let mut s = 0;
+        while s < tot {
+            v.push(CaseKind::Delayed(ci, s, (s + delayed::D_CHUNK).min(tot)));
+            s += delayed::D_CHUNK;
+        }
+    }
     v
 }
 
@@ -339,7 +400,7 @@ fn layout(ctx: &Ctx) -> Vec<CaseKind> {
 struct Obs {
     at: u64,
     down: bool,
-    /// 0..=4 individual key, 5 = x, 10+i = witness of chord i, 20+i = counter key of chord i, 255 = anything else
+    /// 0..=4 individual key, 5 = x, 6 / 7 = the blocker key's tap / hold output, 10+i = witness of chord i, 20+i = counter key of chord i, 255 = anything else
     id: u8,
     /// a chord activation seen in kanata's key state while the chord's witness key was already down
     /// (invisible in the OS stream); only produced by the random-history driver
@@ -351,9 +412,11 @@ struct Names {
     x: String,
     wit: Vec<String>,
     cnt: Vec<String>,
+    blk: [String; 2],
 }
 fn names() -> Names {
     Names {
+        blk: [code_name(osc(BLOCKER)), code_name(osc(BLOCKER_HOLD))],
         keys: KEYS.iter().map(|k| code_name(osc(k))).collect(),
         x: code_name(osc(XKEY)),
         wit: WIT.iter().map(|k| code_name(osc(k))).collect(),
@@ -404,6 +467,8 @@ fn collect(sim: &Sim, base: u64, nm: &Names) -> (Vec<Obs>, Vec<String>) {
             i as u8
         } else if o.name == nm.x {
             5
+        } else if let Some(i) = nm.blk.iter().position(|n| *n == o.name) {
+            6 + i as u8
         } else if let Some(i) = nm.wit.iter().position(|n| *n == o.name) {
             10 + i as u8
         } else if let Some(i) = nm.cnt.iter().position(|n| *n == o.name) {
@@ -422,15 +487,19 @@ fn collect(sim: &Sim, base: u64, nm: &Names) -> (Vec<Obs>, Vec<String>) {
 #[derive(Clone, Debug)]
 struct InEv {
     at: u64,
-    key: usize, // 0..=4, 5 = x
+    key: usize, // 0..=4, 5 = x, 6 = blocker
     press: bool,
+    /// the layout's 32-slot event queue was full when this event arrived: it pushed the oldest
+    /// queued event out for immediate processing (only measured by the random-history driver; no
+    /// scenario comes near 32 queued events)
+    overflow: bool,
 }
 
 #[derive(Default)]
 struct Acct {
     /// fired chords: (chord index, tick, arrival span of the accounted presses, arrivals of the matched presses)
     fired: Vec<(usize, u64, u64, Vec<(usize, u64)>)>,
-    /// units in output order: individual key k -> k, chord i -> 10+i
+    /// units in output order: individual key k -> k (the blocker, tap or hold output -> 6), chord i -> 10+i
     units: Vec<u8>,
     /// chord completions while the chord's witness key was still down (invisible in the OS stream)
     merged: u64,
@@ -477,7 +546,7 @@ fn accounting(c: &Conf, ins: &[InEv], obs: &[Obs]) -> Result<Acct, (&'static str
 fn accounting_with(c: &Conf, ins: &[InEv], obs: &[Obs], latest: bool) -> Result<Acct, (&'static str, String)> {
     let tb = c.tb();
     let mut acct = Acct::default();
-    let mut unacc: Vec<VecDeque<(usize, u64)>> = vec![VecDeque::new(); 6];
+    let mut unacc: Vec<VecDeque<(usize, u64)>> = vec![VecDeque::new(); 7];
     let mut next_in = 0usize;
     let mut last_individual: Option<usize> = None;
     let mut down: Vec<u8> = vec![];
@@ -512,8 +581,9 @@ fn accounting_with(c: &Conf, ins: &[InEv], obs: &[Obs], latest: bool) -> Result<
         } else {
             down.push(o.id);
         }
-        if o.id <= 5 {
-            let k = o.id as usize;
+        if o.id <= 7 {
+            // the blocker key is delivered by its tap output or by its hold output
+            let k = (o.id as usize).min(BLOCKER_KEY);
             let is_chord_key = k < tb.nkeys;
             // match the earliest unaccounted press of this key that keeps the delivery order
             // monotone (an earlier press that was swallowed stays unaccounted and is reported at
@@ -524,15 +594,15 @@ fn accounting_with(c: &Conf, ins: &[InEv], obs: &[Obs], latest: bool) -> Result<
                     // only the relative order of individually delivered keys is required
                     if let Some(l) = last_individual {
                         if idx < l {
-                            return Err(("order-changed", format!("key {} was pressed before a key that was delivered earlier", KEYS.get(k).unwrap_or(&XKEY))));
+                            return Err(("order-changed", format!("key {} was pressed before a key that was delivered earlier", key_name(k))));
                         }
                     }
                     last_individual = Some(idx);
                     let _ = is_chord_key;
                 }
-                None => return Err(("key-invented", format!("key {} output without an unaccounted press of it", KEYS.get(k).unwrap_or(&XKEY)))),
+                None => return Err(("key-invented", format!("key {} output without an unaccounted press of it", key_name(k)))),
             }
-            acct.units.push(o.id);
+            acct.units.push(k as u8);
         } else {
             let ci = (o.id - 10) as usize;
             let Some(m) = tb.chords.get(ci) else {
@@ -588,8 +658,19 @@ fn accounting_with(c: &Conf, ins: &[InEv], obs: &[Obs], latest: bool) -> Result<
             // pending chord fired loses the second press (the chord consumes every queued press of
             // its keys)
             let repress_before_fire = c.v2 && acct.fired.iter().any(|(_, f, _, arr)| *f > *a && arr.iter().any(|(kk, ak)| *kk == k && *ak <= *a));
-            let class = if repress_before_fire { "key-swallowed:repress-before-pending-chord-fired" } else { "key-swallowed" };
-            return Err((class, format!("{} press(es) of {} produced neither the key nor a chord", q.len(), KEYS.get(k).unwrap_or(&XKEY))));
+            // known on the unchanged tree (v1): an event arriving at a full queue forces whatever is
+            // waiting to be decided at once; for a pending chord that means "no action", so the group
+            // key that started it is dropped (findings/C09-v1-chord-start-dropped-on-queue-overflow.md).
+            // Only a group key whose press had arrived when the queue overflowed belongs to this class.
+            let overflowed_after = !c.v2 && k < tb.nkeys && ins.iter().any(|e| e.overflow && e.at >= *a);
+            let class = if repress_before_fire {
+                "key-swallowed:repress-before-pending-chord-fired"
+            } else if overflowed_after {
+                "key-swallowed:group-key-pending-at-queue-overflow"
+            } else {
+                "key-swallowed"
+            };
+            return Err((class, format!("{} press(es) of {} produced neither the key nor a chord", q.len(), key_name(k))));
         }
     }
     Ok(acct)
@@ -599,7 +680,13 @@ fn accounting_with(c: &Conf, ins: &[InEv], obs: &[Obs], latest: bool) -> Result<
 /// Groups: a press joins the pending group iff it arrives < T after the group's first press; a group
 /// fires as soon as its key set is a chord with no defined strict superset, otherwise at its
 /// timeout / the first release, as its chord or greedily decomposed in press order.
-fn v1_expected(c: &Conf, presses: &[(usize, u64)], ambiguous: &mut bool) -> Vec<u8> {
+///
+/// `delayed`: every press waited in the queue behind an undecided blocker. The first group then does
+/// not start from idle either, but its window is still measured from the *arrival* of its first press
+/// (the time spent in the queue is carried along); measured on the tree, a queued press joins iff it
+/// arrived <= T after the group's first press, where a press arriving at a running chord joins iff
+/// < T: the tick T itself is left undetermined.
+fn v1_expected(c: &Conf, presses: &[(usize, u64)], ambiguous: &mut bool, delayed: bool) -> Vec<u8> {
     let tb = c.tb();
     let t = tb.t as u64;
     // all chords incl. the single-key ones: (mask, unit id)
@@ -641,6 +728,12 @@ fn v1_expected(c: &Conf, presses: &[(usize, u64)], ambiguous: &mut bool) -> Vec<
             if c.counting && units.iter().any(|u| *u >= 10) {
                 *ambiguous = true;
             }
+        } else if delayed && !fired {
+            if let Some(p) = presses.get(j) {
+                if p.1 - start == t {
+                    *ambiguous = true;
+                }
+            }
         }
         while !fired && j < presses.len() && presses[j].1 - start < t {
             active |= 1 << presses[j].0;
@@ -655,6 +748,12 @@ fn v1_expected(c: &Conf, presses: &[(usize, u64)], ambiguous: &mut bool) -> Vec<
                 if let Some(p) = presses.get(j) {
                     let d = p.1 - start;
                     if d + lag >= t && d < t + lag {
+                        *ambiguous = true;
+                    }
+                }
+            } else if delayed && !fired {
+                if let Some(p) = presses.get(j) {
+                    if p.1 - start == t {
                         *ambiguous = true;
                     }
                 }
@@ -689,7 +788,7 @@ fn v1_expected(c: &Conf, presses: &[(usize, u64)], ambiguous: &mut bool) -> Vec<
 
 fn unit_name(u: u8, tb: &Table) -> String {
     if u < 10 {
-        KEYS.get(u as usize).unwrap_or(&XKEY).to_string()
+        key_name(u as usize).to_string()
     } else {
         let m = tb.chords.get((u - 10) as usize).copied().unwrap_or(0);
         format!("chord({})", mask_keys(m).iter().map(|k| KEYS[*k]).collect::<Vec<_>>().join(" "))
@@ -712,14 +811,14 @@ fn judge_scen(c: &Conf, s: &Scen, obs: &[Obs], settled: bool) -> Verdict {
     let mut t = 0u64;
     for (k, g) in &s.presses {
         t += *g as u64;
-        ins.push(InEv { at: t, key: *k, press: true });
+        ins.push(InEv { at: t, key: *k, press: true, overflow: false });
     }
     let first_press = ins[0].at;
     let last_press = t;
     let mut rel_at = [0u64; 5];
     for (k, g) in &s.releases {
         t += *g as u64;
-        ins.push(InEv { at: t, key: *k, press: false });
+        ins.push(InEv { at: t, key: *k, press: false, overflow: false });
         rel_at[*k] = t;
     }
     let span = last_press - first_press;
@@ -823,7 +922,7 @@ fn judge_scen(c: &Conf, s: &Scen, obs: &[Obs], settled: bool) -> Verdict {
     if !c.v2 {
         let pr: Vec<(usize, u64)> = ins.iter().filter(|e| e.press).map(|e| (e.key, e.at)).collect();
         let mut ambiguous = false;
-        let exp = v1_expected(c, &pr, &mut ambiguous);
+        let exp = v1_expected(c, &pr, &mut ambiguous, false);
         v.expected = exp.iter().map(|u| unit_name(*u, tb)).collect::<Vec<_>>().join(", ");
         if ambiguous {
             v.class = "v1-late-group-boundary-undetermined";
@@ -1171,8 +1270,15 @@ fn drive_random(sim: &mut Sim, h: &[Ev], tb: &Table, nm: &Names) -> (Vec<InEv>, 
     for e in h {
         match e {
             Ev::P(code) | Ev::R(code) => {
-                let key = if *code == osc(XKEY) { 5 } else { KEYS.iter().position(|k| osc(k) == *code).unwrap_or(5) };
-                ins.push(InEv { at: sim.now - base, key, press: matches!(e, Ev::P(_)) });
+                let key = if *code == osc(XKEY) {
+                    5
+                } else if *code == osc(BLOCKER) {
+                    BLOCKER_KEY
+                } else {
+                    KEYS.iter().position(|k| osc(k) == *code).unwrap_or(5)
+                };
+                let overflow = sim.k.layout.b().queue.len() >= LAYOUT_QUEUE_SLOTS;
+                ins.push(InEv { at: sim.now - base, key, press: matches!(e, Ev::P(_)), overflow });
                 sim.apply(e);
             }
             Ev::T(n) => {
@@ -1207,6 +1313,9 @@ fn random_case(ctx: &Ctx, ridx: u64, out: &mut CaseOut) {
     if tb.nkeys < 5 && rng.coin() {
         keys.push(osc(KEYS[tb.nkeys]));
     }
+    if c.blocker {
+        keys.push(osc(BLOCKER));
+    }
     let gaps = [0u32, 1, 1, 2, 3, tb.t - 1, tb.t, tb.t + 1, 3 * tb.t];
     for hi in 0..8 {
         let n = 4 + rng.usize(30);
@@ -1223,6 +1332,10 @@ fn random_case(ctx: &Ctx, ridx: u64, out: &mut CaseOut) {
                     out.count("random_chords_fired", a.fired.len() as u64);
                     out.count("random_chord_completions_while_witness_down", a.merged);
                     out.count("random_keys_individual", a.units.iter().filter(|u| **u < 10).count() as u64);
+                    if c.blocker {
+                        out.inc("random_histories_with_blocker_key");
+                        out.count("random_blocker_key_decisions", a.units.iter().filter(|u| **u as usize == BLOCKER_KEY).count() as u64);
+                    }
                     if !a.fired.is_empty() {
                         out.tag(format!("rnd|{}|{}", c.label(), a.units.iter().map(|u| u.to_string()).collect::<Vec<_>>().join(",").chars().take(40).collect::<String>()));
                     }
@@ -1265,6 +1378,7 @@ impl Check for C09Check {
         match lay.get(idx as usize) {
             Some(CaseKind::Exh(ci, a, b)) => json!({"config": configs()[*ci].text(), "scenarios": format!("exhaustive scenarios #{a}..#{b}")}),
             Some(CaseKind::ParserDup) => json!({"kind": "parser duplicate key sets"}),
+            Some(CaseKind::Delayed(ci, a, b)) => json!({"config": configs()[*ci].text(), "scenarios": format!("delayed-start scenarios #{a}..#{b} (group keys typed behind an undecided tap-hold)")}),
             Some(CaseKind::Wide(w)) => json!({"kind": "hub key with many chords", "variant": w, "config": wide_cfg(*w)}),
             _ => json!({"kind": "random histories", "index": idx - lay.len() as u64}),
         }
@@ -1283,6 +1397,10 @@ impl Check for C09Check {
             }
             CaseKind::ParserDup => {
                 parser_dup_case(&mut out);
+                return out;
+            }
+            CaseKind::Delayed(ci, a, b) => {
+                delayed::run_chunk(ctx, ci, a, b, &mut out);
                 return out;
             }
             CaseKind::Random(r) => {
@@ -1376,7 +1494,7 @@ impl Check for C09Check {
         out
     }
     fn rule(&self) -> String {
-        "case = one configuration (8 chord tables over 2-5 participating keys: single pair, sub-chord + superset, overlapping pairs with an undefined superset, lone triple, two overlapping triples, pairs + quad, chain of 2/3/4, five-key chord with sub-chords; three defchordsv2-only tables whose chords have different timeouts, an unrelated chord on the same key having a much shorter or longer one; each as a defchords group with single-key chords and as defchordsv2 with all-released / first-release, on the base layer and on a layer where every other chord is disabled; participants written in non-sorted order) and a chunk of its scenario space: for every non-empty subset of the participating keys (subsets of up to 3 keys complete in both tiers; quick: 4-key subsets sampled, 40 000 of 288 000 scenarios each, with a fixed stride; thorough: 4-key subsets complete, 5-key subsets 300 000 of 36 M with a fixed stride; the sampling does not depend on the seed) every permutation of press order x every combination of inter-press gaps from {0,1,T-1,T,T+1} x every permutation of release order x hold {0,1,T+3} x inter-release gap {0,2,9}; for defchordsv2 additionally every chord plus one bystander key (a plain key that is in no chord) in the same scenario space; plus random physically consistent histories mixing chord keys, a non-chord key and an unrelated key (accounting oracle only); plus one parser case (permuted duplicate key sets must be rejected); plus six defchordsv2 configurations in which one hub key takes part in 15 / 17 / 20 two-key chords, every chord in both press orders with gaps 0/1/20. Non-trivial = scenario ran and was judged; distinct = (configuration, pressed subset, scenario class, sequence of fired units).".into()
+        "case = one configuration (8 chord tables over 2-5 participating keys: single pair, sub-chord + superset, overlapping pairs with an undefined superset, lone triple, two overlapping triples, pairs + quad, chain of 2/3/4, five-key chord with sub-chords; three defchordsv2-only tables whose chords have different timeouts, an unrelated chord on the same key having a much shorter or longer one; each as a defchords group with single-key chords and as defchordsv2 with all-released / first-release, on the base layer and on a layer where every other chord is disabled; participants written in non-sorted order) and a chunk of its scenario space: for every non-empty subset of the participating keys (subsets of up to 3 keys complete in both tiers; quick: 4-key subsets sampled, 40 000 of 288 000 scenarios each, with a fixed stride; thorough: 4-key subsets complete, 5-key subsets 300 000 of 36 M with a fixed stride; the sampling does not depend on the seed) every permutation of press order x every combination of inter-press gaps from {0,1,T-1,T,T+1} x every permutation of release order x hold {0,1,T+3} x inter-release gap {0,2,9}; for defchordsv2 additionally every chord plus one bystander key (a plain key that is in no chord) in the same scenario space; plus random physically consistent histories mixing chord keys, a non-chord key and an unrelated key (accounting oracle only); plus one parser case (permuted duplicate key sets must be rejected); plus six defchordsv2 configurations in which one hub key takes part in 15 / 17 / 20 two-key chords, every chord in both press orders with gaps 0/1/20; plus the delayed-start family: the 8 single-timeout tables (defchords group, defchordsv2 all-released and first-release) on a layer that also has a blocker key z = (tap-hold TH TH z y) with TH = 14T+60: z is pressed first and stays undecided while, for every subset of up to 4 participating keys, the keys are pressed in every order with every combination of inter-press gaps from {0,1,T-1,T,T+1,2T,3T,4T}; the blocker is then decided by its release (pressed 0/1/6 ticks before the first group key, released 1/2/9 ticks after the last queued event) or by its hold timeout (running out 1/2/9 ticks after the last queued event); the group keys are released in every order, hold {0,1,T+3}, inter-release gap {0,9}, either after the decision or before it (queued behind the blocker too); one- and two-key subsets complete in both tiers, larger subsets sampled with a fixed stride (defchords: quick 2 400 / thorough 40 000 per subset, defchordsv2: 800 / 8 000); the random histories also draw the blocker configurations, with z among the keys. Non-trivial = scenario ran and was judged; distinct = (configuration, pressed subset, scenario class, sequence of fired units).".into()
     }
     fn assumptions(&self) -> Vec<String> {
         vec![
@@ -1386,6 +1504,7 @@ impl Check for C09Check {
             "v1 tables define a single-key chord for every participating key, so a vanished key is always a swallowed key; the v1 release rule is only judged for undecomposed chords (the guide calls the other cases implementation-defined)".into(),
             "v1: a group of presses that does not start from idle starts when its first press is processed (earlier keys are replayed one per tick); scenarios where a press falls within that lag of such a group's window end, and counting configurations where an earlier chord already fired (its virtual-key tap is a queued non-chord press), are judged by accounting only; for the same reason a chord whose first participant did not arrive at idle may fire with a span of up to T + rapid-event-delay + 2 x keys".into(),
             "v2 negative scenarios are judged by accounting only (which sub-chords fire depends on press order by design)".into(),
+            "delayed-start family: a press that waited in the queue behind the undecided blocker keeps its arrival time for the window (v1 convention as measured on the tree: a queued press joins the group iff it arrived <= T after the group's first press, a press arriving at a running chord iff < T; a distance of exactly T is not judged; later groups of the same scenario have the lag zone of the from-idle family); a chord may fire with an arrival span of up to its window + rapid-event-delay + 2 x (keys + 1), as for every group that does not start from idle; which output (tap or hold) the blocker itself produces is not judged, only that it is delivered exactly once and first; defchordsv2 with a blocker is judged by accounting, the window clause and released-early only (the blocker is a non-chord key and opens the chords-v2-min-idle window, in which chords are skipped by design)".into(),
             "many scenarios run on one kanata instance separated by idle periods; a mismatch is re-judged on a fresh instance".into(),
         ]
     }
@@ -1410,6 +1529,21 @@ impl Check for C09Check {
             ("random_chords_fired", 200),
             ("parser_permuted_duplicate_sets", 10),
             ("parser_malformed_key_lists", 4),
+            // delayed-start family: the queue really was blocked while keys were typed far apart, the
+            // far-apart keys came out individually, both ways of deciding the blocker, releases queued too
+            ("v1_delayed_scenarios", 100_000),
+            ("v2_delayed_scenarios", 50_000),
+            ("v1_delayed_group_presses_2x_to_4x_timeout_apart", 40_000),
+            ("v1_delayed_far_apart_keys_delivered_individually", 30_000),
+            ("v1_class_delayed-positive", 4_000),
+            ("v1_class_delayed-too-slow", 8_000),
+            ("v1_delayed_outcomes_compared_with_reference", 60_000),
+            ("v1_delayed_scenarios_with_chord_fired", 10_000),
+            ("v2_delayed_scenarios_with_chord_fired", 4_000),
+            ("delayed_blocker_decided_by_release", 60_000),
+            ("delayed_blocker_decided_by_hold_timeout", 60_000),
+            ("delayed_group_releases_queued_behind_blocker", 60_000),
+            ("random_blocker_key_decisions", 500),
         ]
     }
     fn exhaustive(&self, _ctx: &Ctx) -> bool {
